@@ -19,7 +19,7 @@ import (
 type cliScenario struct {
 	Input    string `json:"input"`    // setup path relative to the module root (may not exist)
 	Spelling string `json:"spelling"` // rel-root | abs | dot-rel | pkg-dir | gofile-only | gofile-and-arg | gofile-pkg-dir
-	OutKind  string `json:"out_kind"` // "" (default) | same-dir | nested-dir | missing-dir | is-dir | abs
+	OutKind  string `json:"out_kind"` // "" (default) | same-dir | cwd | nested-dir | missing-dir | is-dir | abs
 	Dry      bool   `json:"dry"`
 	Print    bool   `json:"print"`
 	Log      bool   `json:"log"`
@@ -99,6 +99,8 @@ func execScenario(env *hx.Env, files hx.Files, sc cliScenario, identical string)
 		outArg = filepath.Join(filepath.Dir(spelled), "other_name.go")
 	case "abs":
 		outArg = filepath.Join(pkgDir, "abs_out.go")
+	case "cwd":
+		outArg = "out_in_cwd.go" // a bare name: relative to the working directory, which need not be the setup file's
 	case "nested-dir":
 		_ = os.MkdirAll(filepath.Join(pkgDir, "sub", "deep"), 0o755)
 		outArg = filepath.Join(filepath.Dir(spelled), "sub", "deep", "out.go")
@@ -187,6 +189,9 @@ func rejectedVariants(p *pg.Prog) map[string]hx.Files {
 	out["unknown-converter"] = base.Set(pg.SetupPath, "//go:build convergen\n\npackage home\n\ntype Convergen interface {\n\t// :conv noSuchFunc A A\n\tConvertWithUnknownConverter(*LInner) *LInner2\n}\n")
 	out["non-struct-operand"] = base.Set(pg.SetupPath, "//go:build convergen\n\npackage home\n\ntype Convergen interface {\n\tConvertNonStructOperand(int) *LInner2\n}\n")
 	out["unformattable-literal"] = base.Set(pg.SetupPath, "//go:build convergen\n\npackage home\n\ntype Convergen interface {\n\t// :literal A )(\n\tConvertUnformattableLiteral(*LInner) *LInner2\n}\n")
+	out["go-mod-needs-update"] = base.Set("go.mod", "module "+pg.ModulePath+"\n\ngo 1.19\n\nreplace example.com/shared => ./shared\n").
+		Set("shared/go.mod", "module example.com/shared\n\ngo 1.19\n").Set("shared/s.go", "package shared\n\ntype T struct{ A int }\n").
+		Set(pg.SetupPath, "//go:build convergen\n\npackage home\n\nimport \"example.com/shared\"\n\ntype Convergen interface {\n\tConvertShared(*shared.T) *LInner\n}\n")
 	return out
 }
 
@@ -194,5 +199,8 @@ func rejectedVariants(p *pg.Prog) map[string]hx.Files {
 func genSmallProg(t *rapid.T) *pg.Prog {
 	pf := fullProfile()
 	pf.MaxPairs, pf.MaxMethods, pf.MaxFields = 2, 3, 5
-	return pg.GenProg(t, pf)
+	p := pg.GenProg(t, pf)
+	// carried-over declarations with printf verbs and the % operator (the code is data, never a format string)
+	p.SetupFuncs += "// pctLit: 100% of the verbs %d %s %v must survive.\nconst pctLit = \"100% done %d %s %!\"\n\nfunc pctMod(a, b int) int { return a % b }\n"
+	return p
 }
